@@ -228,7 +228,7 @@ def grid_dist(metric, u, v):
     return math.sqrt(sum(x * x for x in d))
 
 def gen_ctx_case(rng, lps=None, nps=None, max_ops=6, max_rows=30, arm_changes=True, warm=False, label=None,
-                 reward_styles=None, queries=True, grid=4, force_dim=None, fit_prob=0.1, swap_prob=0.06, ties=False, lints_nbhd=False, force_scale=False):
+                 reward_styles=None, queries=True, grid=4, force_dim=None, fit_prob=0.1, swap_prob=0.06, ties=False, lints_nbhd=False, force_scale=False, njobs=True):
     npk = rng.choice(nps if nps is not None else ["none"] + NP_KINDS)
     if lps is None:
         lps = CF_KINDS + LIN_KINDS if npk != "none" else LIN_KINDS
@@ -362,6 +362,12 @@ def gen_ctx_case(rng, lps=None, nps=None, max_ops=6, max_rows=30, arm_changes=Tr
         def squeeze(cx):
             return [[(base + v * delta) if k == j else v for k, v in enumerate(row)] for row in cx]
         ops = [((o[0], o[1], o[2], squeeze(o[3])) if o[0] in ("fit", "pfit") else ((o[0], squeeze(o[1])) if o[0] in ("pred", "pexp") else o)) for o in ops]
-    return {"arms": arms, "lp": lp, "np": None if npol is None else tuple(npol), "seed": rng.randint(0, 2**31 - 2), "ops": ops,
+    case = {"arms": arms, "lp": lp, "np": None if npol is None else tuple(npol), "seed": rng.randint(0, 2**31 - 2), "ops": ops,
             "label": label or rng.choice(["int", "str", "float", "int"]), "mode": "tol" if is_lin else "exact",
             "reward_style": style}
+    # a quarter of the contextual cases run with several workers (threads): the rows of a query are split among them.
+    # Excluded: policies whose draws are known to depend on the partition (findings D7: TreeBandit leaves that draw; D8: LinTS)
+    draws_in_tree = npk == "tree" and (kind == "thompson" or (kind == "greedy" and lp[1] > 0))
+    if njobs and npk != "none" and not draws_in_tree and kind != "lints" and rng.random() < 0.25:
+        case["n_jobs"] = rng.choice([2, 3]); case["backend"] = "threading"
+    return case
